@@ -16,8 +16,11 @@ Per run:
      lists of unary_encoder / hamming_weight_encoder / binary_encoder are spied and compared with the model's exact rational
      cos^2 (fractions.Fraction, 1e-13) + signs + zero-norm guard + range; numpy.arctan2 / math.acos are contract-checked (1e-15)
      on every argument the real code passed to them; complex data: gate layout, thetas, and the phase equations of the phis.
+ constructor histories (harness/c20_purity.py, C20/Store.v, C20/PropsStore.v): every constructor is a function of its arguments --
+     build / build-same / build-other / caller mutation / rebuild / execute, every earlier snapshot re-checked after each step, no gate
+     object shared between two returned circuits or with module-level tables, data arguments not mutated.
 """
-STATIC = ["C20/Props", "C20/PropsAngles", "Base/TrigMat"]
+STATIC = ["C20/Props", "C20/PropsAngles", "C20/PropsStore", "Base/TrigMat"]
 import ast
 import hashlib
 import itertools
@@ -1074,6 +1077,11 @@ RULE = ("dtype x sparsity x sign matrix for every data encoder (float64 / int64 
 
 
 # ------------------------------------------------------------------ entangling_layer / phase_encoder / random gaussian loader
+CONSTRUCTOR_RULE = ("; constructor histories: for every constructor (QFT, comp_basis, phase, unary tree/diagonal, unary random gaussian, binary "
+                    "hyperspherical/hopf real+complex, hamming-weight both control settings real+complex, ghz, entangling_layer 8 architectures) "
+                    "build / build-same / build-other-data / caller mutation (set_parameters, gate.parameters, add) / rebuild / execute with every "
+                    "earlier snapshot (gates, parameters, matrices, executed state) re-checked after each step, no gate object shared between two "
+                    "returned circuits or with module-level tables, data arguments not mutated (fixed per-constructor corpus + random histories)")
 ARCHS = [("diagonal", "ADiagonal"), ("even_layer", "AEven"), ("odd_layer", "AOdd"), ("shifted", "AShifted"),
          ("next_nearest", "ANextNearest"), ("pyramid", "APyramid"), ("v", "AV"), ("x", "AX")]
 
@@ -1335,14 +1343,25 @@ def main(run):
     run.notes["binary_data"] = binary_data(run, rng, 200 if thorough else 60)
     hopf_zero_block(run)
     run.notes["dtype_matrix"] = dtype_matrix_test(run, rng)
-    return run.finish(rule=RULE)
+    # the constructors are functions of their arguments: histories of build / mutate / rebuild / execute over every constructor
+    from harness import c20_purity
+    run.notes["constructor_histories"] = c20_purity.constructor_histories(run, random.Random(run.seed + 22), 250 if thorough else 80)
+    names_s = vcore.props_theorems("C20/PropsStore.v")
+    ok_s, pa_s = vcore.static_assumptions("C20/PropsStore")
+    for nme in names_s:
+        run.oblige(nme, ok_s and nme in pa_s, "theorem")
+    run.notes["print_assumptions_store"] = pa_s
+    return run.finish(rule=RULE + CONSTRUCTOR_RULE)
 
 
 def replay(run, data):
     rp = data.get("replay", {})
     key = data.get("key", "")
     rng = random.Random(0)
-    if key.startswith("dtype:") and "encoder" in rp:
+    if key.startswith("purity:"):
+        from harness import c20_purity
+        c20_purity.replay_history(run, key, data.get("what", ""), rp)
+    elif key.startswith("dtype:") and "encoder" in rp:
         replay_dtype(run, key, data.get("what", ""), rp)
     elif key.startswith("unary:"):
         from qibo.models.encodings import unary_encoder
